@@ -115,6 +115,9 @@ def _run_async_case(case, ch, workdir, res):
         for k, n in enters.items():
             if n != 1:
                 violation(res, "exec-count", sig, f"body {k} executed {n} times by {1 + nother} concurrent submitters of one workflow")
+        wfbodies = sum(1 for _n, d in sim.events if d[0] == "wf-body")
+        if wfbodies != 1 and status == "ok":
+            violation(res, "exec-count", sig, f"the workflow itself was expanded {wfbodies} times by {1 + nother} concurrent submitters, expected exactly once")
     finally:
         env.close()
     return res
@@ -217,6 +220,9 @@ def run_case(case, ch, workdir):
         for name, data in sim.events:
             if data[0] == "enter":
                 enters[data[1]] = enters.get(data[1], 0) + 1
+        wfbodies = sum(1 for _n, d in sim.events if d[0] == "wf-body")
+        if kind == "wf" and outcome == "idle" and wfbodies != 1:
+            violation(res, "exec-count", sig, f"the workflow itself was expanded {wfbodies} times by {nsub} concurrent submitters, expected exactly once")
         want = 0 if scen == "preexisting" else 1
         nkeys = 2 if kind == "wf" else 1
         if scen != "preexisting" and len(enters) != nkeys and outcome == "idle":
